@@ -269,10 +269,15 @@ class Judge:
         if "gr" in r:
             self.gradient(S, r, ctx, "rgrad", fls(r["gr"]), b, [(f["u"], f["q"]) for f in r["fd"]], h, geo, desc)
 
-        # wrap
+        # wrap (a law on single values: keyed by where the value lies, not by the pair's class)
         if "w" in r:
-            for x, w in zip((a, b), r["w"]):
-                self.wrap(S, r, ctx, x, fls(w), desc)
+            for i, (x, w) in enumerate(zip((a, b), r["w"])):
+                wcl = "any"
+                if man == "S1":
+                    lo, hi = S["c"] - 0.5 * S["P"], S["c"] + 0.5 * S["P"]
+                    wcl = "boundary" if (cl == "wrap_boundary" and i == 0) else \
+                        ("inside" if lo <= x[0] < hi else "outside")
+                self.wrap(S, r, ctx, wcl, x, fls(w), desc)
 
         # interpolation
         for ip in r.get("ip", []):
@@ -333,8 +338,7 @@ class Judge:
             else:
                 self.ok(S, law + "_mismatch", cl)
 
-    def wrap(self, S, r, ctx, x, w, desc):
-        cl = r["cl"]
+    def wrap(self, S, r, ctx, cl, x, w, desc):
         if S["man"] != "S1":
             same = (w == x) or (S["man"] == "S3" and w == [-v for v in x])
             if not same:
@@ -349,7 +353,7 @@ class Judge:
             return
         lo, hi = c - 0.5 * P, c + 0.5 * P      # exact: P and c are small dyadic numbers
         slack = 4.0 * EPS * max(abs(x), abs(lo), abs(hi))
-        exact = (cl in ("wrap_boundary", "cut_exact")) and x == math.floor(x * 1024.0) / 1024.0
+        exact = x == math.floor(x * 1024.0) / 1024.0 and abs(x) < 2.0 ** 20   # x, P, c dyadic: no rounding
         if exact:
             slack = 0.0
         if w < lo - slack or w > hi + slack or (exact and w == hi):
@@ -376,8 +380,6 @@ class Judge:
                          % (lam, norm(res), r["a"], r["b"]), r, ctx)
             else:
                 self.ok(S, "interp_off_manifold", cl)
-        else:
-            self.ok(S, "interp_off_manifold", cl)
         for lam0, end, law in ((0.0, a, "interp_end0"), (1.0, b, "interp_end1")):
             if lam != lam0:
                 continue
@@ -421,6 +423,14 @@ def run_chunk(job):
     return job, r
 
 
+def chunk_results(jobs, batch=4):
+    """run the harness a few chunks at a time (a chunk's output is ~1 kB per pair: bounded memory),
+    results in job order so that the first witness kept per violation key is reproducible"""
+    for i in range(0, len(jobs), batch):
+        for res in common.pmap(run_chunk, jobs[i:i + batch]):
+            yield res
+
+
 def run(tier, replay):
     c = common.Check("C18", tier)
     c.rule = ("evaluations = calls of dist2/dist2_lgrad/dist2_rgrad/wrap/interpolate/apply_constraints on the "
@@ -443,7 +453,7 @@ def run(tier, replay):
             c.inconc("cannot read replay %s: %s" % (replay, ex))
             return c.finish(False, "replay unreadable")
     else:
-        nplain, cplain, nasan, casan = (4, 30, 1, 8) if tier == "quick" else (16, 100, 4, 25)
+        nplain, cplain, nasan, casan = (4, 30, 1, 8) if tier == "quick" else (48, 96, 4, 30)
         jobs = [("plain", c.rng.getrandbits(31), cplain) for _ in range(nplain)]
         jobs += [("asan", c.rng.getrandbits(31), casan) for _ in range(nasan)]
     for f in sorted(set(j[0] for j in jobs)):
@@ -454,7 +464,7 @@ def run(tier, replay):
     types_seen = {}
     sampled = set()
     harness_ok = True
-    for job, r in common.pmap(run_chunk, jobs):
+    for job, r in chunk_results(jobs):
         flavour, hseed, ncases = job
         ctx = {"flavour": flavour, "seed": hseed, "ncases": ncases,
                "cmd": "h_values %d %d  (flavour %s)" % (hseed, ncases, flavour)}
@@ -503,6 +513,7 @@ def run(tier, replay):
             harness_ok = False
     J.flush()
     c.extra["law_evaluations"] = J.laws
+    c.extra["conclusive_by_type_and_law"] = {"%s/%s" % k: v for k, v in sorted(J.law_ok.items())}
     c.extra["pairs_by_type"] = types_seen
 
     # observation floor: every value type went through every family of laws at least once
